@@ -275,6 +275,30 @@ GateFails(mb, ln) ==
       IF ~ln.res.ok THEN Fail(ln.same, "C19:rejected-open-modified-directory") ELSE {}
     }
 
+(***************************************************************************)
+(* Block abstraction ("a multi-key range removal is one operation", also   *)
+(* for more keys than the four of the model): a block of n concrete keys   *)
+(* stands for ONE abstract key whose value is full / none / partial.  The  *)
+(* model's removal takes full to none in one step (ApplyRmKeys), so an     *)
+(* image taken inside it recovers to full or none; "partial" is no state   *)
+(* of the model.  Two concrete keys outside the block stand for the other  *)
+(* keys of the model.                                                      *)
+(***************************************************************************)
+BlockVal(left, n) == IF left = n THEN "full" ELSE IF left = 0 THEN "none" ELSE "partial"
+BulkFails(ln) ==
+    UNION {
+      Fail(ln.rec.val # "panic", "C03:panic"),
+      Fail(ln.rec.ok, "C03:open-after-crash-failed"),
+      IF ln.rec.ok
+      THEN Fail(BlockVal(ln.rec.left, ln.n) \in {"full", "none"}, "C03:range-removal-partially-visible")
+           \cup Fail(ln.rec.outside, "C03:other-key-lost")
+           \cup Fail(ln.rec.len = ln.rec.left + 2, "C03:foreign-key-visible")
+      ELSE {},
+      IF ln.phase = "done"
+      THEN Fail(ln.res.ok /\ ln.res.n = ln.n /\ ln.rec.left = 0, "C03:range-removal-incomplete")
+      ELSE {}
+    }
+
 (**************************** the trace machine *****************************)
 NoObs == [open |-> FALSE]
 Init == l = 1 /\ m = InitState(2, {}) /\ pobs = NoObs /\ sc = [sid |-> "", mode |-> "plain", crashed |-> FALSE]
@@ -317,8 +341,10 @@ OnGate    == /\ Line.ev = "gate" /\ Report(GateFails(m, Line))
              /\ m' = IF Line.res.ok THEN RunOp(m, [op |-> "reopen"]) ELSE m
              /\ UNCHANGED <<pobs, sc, fm>>
 
+OnBulk    == Line.ev = "bulk" /\ Report(BulkFails(Line)) /\ UNCHANGED <<m, pobs, sc, fm>>
+
 Next == l <= Len(Lines) /\ l' = l + 1
-        /\ (OnReset \/ OnOp \/ OnImg \/ OnFaultOp \/ OnDmgBase \/ OnDmg \/ OnPlant \/ OnGate)
+        /\ (OnReset \/ OnOp \/ OnImg \/ OnFaultOp \/ OnDmgBase \/ OnDmg \/ OnPlant \/ OnGate \/ OnBulk)
 
 Spec == Init /\ [][Next]_vars
 
